@@ -12,7 +12,10 @@ EXTENDS Exec
 VARIABLE rules
 lvars == <<prog, script, fault, full, rules>>
 
-Rule(tk, src) == [tk |-> tk, src |-> src]
+\* a rule set is given by the LogConfig calls that make it (Exec.tla: Expand); Rule = one `with` (`with_auto` for PG)
+Add(tk, via, srcs) == [tk |-> tk, via |-> via, srcs |-> srcs]
+Rule(tk, src) == Add(tk, IF src = "PG" THEN "auto" ELSE "with", <<src>>)
+Common(tk) == Add(tk, "common", <<>>)
 RuleSets ==
     { <<>>,
       <<Rule("always", "K0")>>, <<Rule("never", "K0")>>, <<Rule("every2", "U")>>, <<Rule("scripted", "K0")>>,
@@ -25,13 +28,22 @@ RuleSets ==
       <<Rule("always", "PG")>>, <<Rule("every2", "PG"), Rule("always", "K0")>>,     \* a float state (values above 1 too)
       <<Rule("always", "U"), Rule("scripted", "U"), Rule("scripted", "K0")>>,
       <<Rule("scripted", "U"), Rule("every2", "K0")>>,
-      <<Rule("every2", "IT"), Rule("always", "U"), Rule("scripted", "MISSING")>> }
+      <<Rule("every2", "IT"), Rule("always", "U"), Rule("scripted", "MISSING")>>,
+      \* steps that bring names no earlier step had, next to steps that lack names earlier steps had (name table of the exports)
+      <<Rule("scripted", "U"), Rule("late", "K0")>>, <<Rule("late", "PG"), Rule("scripted", "MISSING"), Rule("late", "U")>>,
+      \* every convenience of LogConfig: the shorthand for the common values (alone, shadowed by / shadowing a spelled-out
+      \* rule of the same name, next to the progress of the OTHER counter), several extractors under one trigger, whole states
+      <<Common("always")>>, <<Common("every2"), Rule("always", "PE")>>,
+      <<Rule("never", "EV"), Common("always")>>, <<Common("never"), Add("always", "auto", <<"PI">>)>>,
+      <<Add("always", "many", <<"K0", "U">>)>>, <<Add("every2", "many", <<"U", "PE", "U", "IT">>), Rule("always", "EV")>>,
+      <<Add("always", "many", <<>>), Add("always", "auto", <<"K0">>)>>,
+      <<Add("every2", "auto", <<"EV">>), Add("always", "auto", <<"MISSING">>)>> }
 
 LInit == /\ prog \in Programs(MaxStmts)
          /\ script \in Scripts(MaxScript)
          /\ fault = <<"none", 0>>
          /\ rules \in RuleSets
-         /\ full = RunProgX(prog, script, fault, rules, 0)
+         /\ full = RunProgX(prog, script, fault, Expand(rules), 0)
 LNext == UNCHANGED lvars
 LSpec == LInit /\ [][LNext]_lvars
 
@@ -48,8 +60,13 @@ OneStepPerFiringExecution == Len(Log) = Cardinality(FiringIdx)
 
 Names(step) == {step[i].n : i \in 1..Len(step)}
 FiredSrcs(x) == {x.rules[j].src : j \in {j \in 1..Len(x.rules) : x.fired[j] = 1}}
+\* what the named source holds: K0 / U / IT themselves; PG, EV (evaluations), PI (progress of the iterations) and PE
+\* (progress of the evaluations) are kept next to K0 by the leaves as 3 K0, K0 + 10, K0 + 20, K0 + 30
 VisAt(sc, src) == IF src \in {"MISSING", "BV"} THEN NoVal
-                  ELSE IF src = "PG" THEN (IF Vis(sc, "K0") = NoVal THEN NoVal ELSE 3 * Vis(sc, "K0"))
+                  ELSE IF src \in {"PG", "EV", "PI", "PE"}
+                       THEN (IF Vis(sc, "K0") = NoVal THEN NoVal
+                             ELSE CASE src = "PG" -> 3 * Vis(sc, "K0") [] src = "EV" -> Vis(sc, "K0") + 10
+                                    [] src = "PI" -> Vis(sc, "K0") + 20 [] src = "PE" -> Vis(sc, "K0") + 30)
                   ELSE Vis(sc, src)
 
 \* a step holds one entry per fired rule (one per name), each with the value the state had at that
